@@ -453,13 +453,19 @@ func (r *runner) end() {
 	r.s.Close()
 	var rest []int
 	drained := false
-	for i := 0; i < len(r.hist)+2; i++ {
-		t := r.q.Dequeue()
-		if t == nil {
-			drained = true
-			break
+	if p, msg := tr.Guard(func() {
+		for i := 0; i < len(r.hist)+2; i++ {
+			t := r.q.Dequeue()
+			if t == nil {
+				drained = true
+				break
+			}
+			rest = append(rest, t.Param.(int))
 		}
-		rest = append(rest, t.Param.(int))
+	}); p {
+		r.w.Fail("Queue", "panic", "final drain panicked: "+msg)
+		r.w.End()
+		return
 	}
 	if !drained {
 		r.w.Fail("Dequeue", "lost-value", "queue still not empty after draining more values than were enqueued")
@@ -476,12 +482,18 @@ func (r *runner) end() {
 func stress(w *tr.Writer, g, n int, seed uint64) {
 	q := queue.NewLockFreeQueue()
 	var clk int64
+	var panics int32
 	hs := make([][]hop, g)
 	var wg sync.WaitGroup
 	for i := 0; i < g; i++ {
 		wg.Add(1)
 		go func(i int) {
 			defer wg.Done()
+			defer func() {
+				if r := recover(); r != nil {
+					atomic.AddInt32(&panics, 1)
+				}
+			}()
 			rnd := tr.NewRand(seed*131 + uint64(i))
 			for k := 0; k < n; k++ {
 				o := hop{tid: i, done: true}
@@ -505,6 +517,10 @@ func stress(w *tr.Writer, g, n int, seed uint64) {
 		}(i)
 	}
 	wg.Wait()
+	if panics > 0 {
+		w.Fail("Queue", "panic", "a queue operation panicked in an unmanaged stress run")
+		return
+	}
 	var h []hop
 	for _, x := range hs {
 		h = append(h, x...)
@@ -525,13 +541,18 @@ func stress(w *tr.Writer, g, n int, seed uint64) {
 	}
 	var rest []int
 	drained := false
-	for i := 0; i < len(h)+2; i++ {
-		t := q.Dequeue()
-		if t == nil {
-			drained = true
-			break
+	if p, msg := tr.Guard(func() {
+		for i := 0; i < len(h)+2; i++ {
+			t := q.Dequeue()
+			if t == nil {
+				drained = true
+				break
+			}
+			rest = append(rest, t.Param.(int))
 		}
-		rest = append(rest, t.Param.(int))
+	}); p {
+		w.Fail("Queue", "panic", "final drain panicked: "+msg)
+		return
 	}
 	checkHistory(w, h, rest, drained)
 	if g*n > 62 {
